@@ -108,8 +108,10 @@ func (m *Message) Ack() bool {
 	m.ackSentType = ack
 	verifhook.Point("message.ack.decided")
 	if m.ack == nil {
+		verifhook.Point("message.ack.closing")
 		m.ack = closedchan
 	} else {
+		verifhook.Point("message.ack.closing")
 		close(m.ack)
 	}
 
@@ -136,8 +138,10 @@ func (m *Message) Nack() bool {
 	verifhook.Point("message.nack.decided")
 
 	if m.noAck == nil {
+		verifhook.Point("message.nack.closing")
 		m.noAck = closedchan
 	} else {
+		verifhook.Point("message.nack.closing")
 		close(m.noAck)
 	}
 
